@@ -104,7 +104,7 @@ def main():
                 rc2, o2 = sh("go test -vet=off -count=1 -run '%s' %s" % (runre, ddir), cwd=wt)
                 os.remove(target)
                 with_tests = stable_tests(wt)
-                sh("git checkout -- .", cwd=wt)
+                sh("git checkout -- . && git clean -fdq", cwd=wt)
                 res.update(demo_clean_pass=(rc1 == 0), patch_applies=(rcA == 0), demo_patched_fail=(rc2 != 0),
                            tests_unchanged=(with_tests == base_tests), demo_cmd="go test -vet=off -count=1 -run '%s' %s" % (runre, ddir))
                 if with_tests != base_tests:
@@ -127,7 +127,7 @@ def main():
                         if rc == 2:
                             det[c]["tail"] = out[-1500:]
                 finally:
-                    sh("git -C /repo checkout -- .")
+                    sh("git -C /repo checkout -- . && git -C /repo clean -fdq")
             res["checks"] = det
             res["detected"] = any(d["rc"] == 1 for d in det.values())
             results.append(res)
@@ -143,7 +143,7 @@ def main():
             print(json.dumps(res, indent=1))
     finally:
         sh("git -C /repo worktree remove --force %s" % wt)
-        sh("git -C /repo checkout -- .")
+        sh("git -C /repo checkout -- . && git -C /repo clean -fdq")
     return 0
 
 
